@@ -272,7 +272,7 @@ func c15Scenarios() []*explore.Scenario {
 		d.finish()
 	}
 	return []*explore.Scenario{
-		{Name: "report-poll-kick", Quick: explore.Bounds{P: 2}, Thorough: explore.Bounds{P: 3}, Body: func(e *vsched.Exec) {
+		{Name: "report-poll-kick", Quick: explore.Bounds{P: 2, FreeSwitch: true}, Thorough: explore.Bounds{P: 3, FreeSwitch: true}, Body: func(e *vsched.Exec) {
 			d := c15New(e)
 			run(d,
 				func() { d.report(1, "u", 1, 16); d.report(1, "u", 2, 32) },
@@ -281,7 +281,7 @@ func c15Scenarios() []*explore.Scenario {
 				func() { d.kick(4, "u") },
 			)
 		}},
-		{Name: "double-kick-noclear", Quick: explore.Bounds{P: 2}, Thorough: explore.Bounds{P: 3}, Body: func(e *vsched.Exec) {
+		{Name: "double-kick-noclear", Quick: explore.Bounds{P: 2, FreeSwitch: true}, Thorough: explore.Bounds{P: 3, FreeSwitch: true}, Body: func(e *vsched.Exec) {
 			d := c15New(e)
 			run(d,
 				func() { d.report(1, "u", 1, 16); d.report(1, "u", 2, 32); d.report(1, "u", 4, 64) },
@@ -290,7 +290,7 @@ func c15Scenarios() []*explore.Scenario {
 				func() { d.report(4, "v", 8, 128) },
 			)
 		}},
-		{Name: "online", Quick: explore.Bounds{P: 2}, Thorough: explore.Bounds{P: 3}, Body: func(e *vsched.Exec) {
+		{Name: "online", Quick: explore.Bounds{P: 2, FreeSwitch: true}, Thorough: explore.Bounds{P: 3, FreeSwitch: true}, Body: func(e *vsched.Exec) {
 			d := c15New(e)
 			run(d,
 				func() { d.state(1, "u", true); d.report(1, "u", 1, 16); d.state(1, "u", false) },
